@@ -87,7 +87,7 @@ Kinds == {"circuit", "unitary", "state", "system"}
 BuiltN(kind, n) == IF kind = "circuit" THEN 0 ELSE n
 \* the programs extracted from the real build_workflow(): sequence of [kind, level, n, prog]
 Built == JsonDeserialize(IOEnv.BUILT_FILE)
-BuiltProg(kind, level, n) == (CHOOSE i \in 1..Len(Built) : Built[i].kind = kind /\ Built[i].level = level /\ Built[i].n = BuiltN(kind, n)).prog
+BuiltProg(kind, level, n) == Built[CHOOSE i \in 1..Len(Built) : Built[i].kind = kind /\ Built[i].level = level /\ Built[i].n = BuiltN(kind, n)].prog
 
 \* ------------------------------------------------------------------ abstract records
 Meas == {"none", "in", "stored"}
